@@ -719,7 +719,7 @@ theorem BookInv.step (s s' : Sys) (m : Msg) (rest0 subs : List Msg)
       | disp env sender funds dm heq hx' h bb t r g =>
         injection heq with _ e2 _ _
         exact same h ch.1 ch.2 (sentBy_noStake b (by rw [e2]; decide) subs sent)
-      | reg s1 sender funds rm heq h1 hx' h bb t r dd =>
+      | reg s1 sender funds rm heq h1 _ _ hx' h bb t r dd =>
         injection heq with _ e2 _ _
         exact same h ch.1 ch.2 (sentBy_noStake b (by rw [e2]; decide) subs sent)
 
@@ -873,7 +873,7 @@ theorem C02_direct_call_recognises (s s' : Sys) (sender : Addr) (funds : List (D
     | stsei blk sender' funds' tm heq _ _ _ _ _ _ => injection heq with _ e2 _ _; cases e2
     | reward s1 sender' funds' rm heq _ _ _ _ _ _ _ _ _ => injection heq with _ e2 _ _; cases e2
     | disp env sender' funds' dm heq _ _ _ _ _ _ => injection heq with _ e2 _ _; cases e2
-    | reg s1 sender' funds' rm heq _ _ _ _ _ _ _ => injection heq with _ e2 _ _; cases e2
+    | reg s1 sender' funds' rm heq _ _ _ _ _ _ _ _ _ => injection heq with _ e2 _ _; cases e2
 
 /-! Non-vacuity: the genesis state of the corpus satisfies the premises. -/
 example : ChainOK genesisSys ∧ genesisSys.hub.bBond + genesisSys.hub.sBond ≤ totalDelegated genesisSys :=
